@@ -35,6 +35,41 @@ Theorem one_critical_section : forallb sk_one_section c14_api_locks = true.
 Proof. exact api_one_section. Qed.
 Print Assumptions one_critical_section.
 
+(** Every access to the shared state - the table, the list links and nodes
+    (also through local aliases of type *node, e.g. n := c.table[k]; n.b, and
+    inside the inlined helpers remove / insertAfter), cap, the statistics
+    counters, the reference to the wrapped cache - on every path of every
+    exported method lies between the lock and the unlock event: writes under
+    the write lock, reads under the write or the read lock. This is the fact
+    about the source that lets [linearizable] treat a method body as a
+    sequence of micro-steps taken while the mutex is held. *)
+Theorem accesses_inside_critical_section :
+  forallb sk_accesses_inside c14_api_locks = true.
+Proof. exact api_accesses_inside. Qed.
+Print Assumptions accesses_inside_critical_section.
+
+(** The model's classification of operations is the source's: Len, Cap and
+    Peek of the three caches (nine methods) only read and do so under the
+    read lock; every other cache method works under the write lock. *)
+Theorem read_lock_methods_read_only :
+  forallb sk_is_reader c14_reader_locks = true /\ forallb sk_is_writer c14_writer_locks = true
+  /\ length c14_reader_locks = 9%nat
+  /\ (length c14_reader_locks + length c14_writer_locks = length c14_cache_api_locks)%nat.
+Proof. exact readers_and_writers. Qed.
+Print Assumptions read_lock_methods_read_only.
+
+(** The two mutexes guard disjoint state (cache methods: table, list, nodes,
+    cap; StatsRecorder methods: its counters and the wrapped cache), and no
+    function other than these methods reaches that state: the lock-free
+    helpers are called only from methods, where the skeletons inline them, and
+    no method starts a goroutine or builds a closure. *)
+Theorem lock_domains_and_entry_points :
+  forallb (sk_fields_in [FTable; FList; FNode; FCap]) c14_cache_api_locks = true
+  /\ forallb (sk_fields_in [FStats; FInner]) c14_stats_api_locks = true
+  /\ c14_unlocked_entry_points = 0.
+Proof. exact (conj (proj1 lock_domains) (conj (proj2 lock_domains) no_unlocked_entry)). Qed.
+Print Assumptions lock_domains_and_entry_points.
+
 (** Never more than cap blocks, keys distinct - LRU and FIFO. *)
 Theorem cache_cap_inv :
   forall fifo n s c cl, 1 <= n -> lf_reach fifo n (s, c) cl ->
@@ -208,6 +243,50 @@ Theorem resize_drop_free_return_random :
 Proof. exact rnd_resize_drop_free_gen. Qed.
 Print Assumptions resize_drop_free_return_random.
 
+(** Free(m, c), sequentially (no other call between its five calls Cap, Len,
+    Drop, Cap, Len): from every reachable state it returns, answers m <= cap,
+    leaves the capacity, evicts by the policy exactly the blocks needed (none
+    when m slots are free), and then m slots are free if m <= cap, the cache
+    is empty otherwise. *)
+Theorem free_sequential :
+  forall fifo n s c cl m, 1 <= n -> lf_reach fifo n (s, c) cl ->
+    exists c', lf_wstep fifo false (s, c) (Free m) = ((s, c'), OBool (m <=? cap c))
+      /\ cap c' = cap c
+      /\ blocks (tab c') = sdrop s (Z.to_nat (m - (cap c - tlen (tab c)))) (blocks (tab c))
+      /\ tlen (tab c') = Z.max 0 (Z.min (tlen (tab c)) (cap c - m))
+      /\ (m <= cap c -> m <= cap c' - tlen (tab c'))
+      /\ (cap c < m -> tlen (tab c') = 0).
+Proof. exact lf_free_sequential_gen. Qed.
+Print Assumptions free_sequential.
+
+Theorem free_sequential_random :
+  forall n s c cl m ch1 ch2, 1 <= n -> rnd_reach n (s, c) cl ->
+    exists c', rnd_wstep (s, c) (Free m, ch1, ch2) = ((s, c'), OBool (m <=? rcap c))
+      /\ rcap c' = rcap c
+      /\ rtab c' = (if m <=? rcap c - tlen (rtab c) then rtab c
+                    else rnd_drop s ch1 ch2 (m - (rcap c - tlen (rtab c))) (rtab c))
+      /\ tlen (rtab c') = Z.max 0 (Z.min (tlen (rtab c)) (rcap c - m))
+      /\ (m <= rcap c -> m <= rcap c' - tlen (rtab c'))
+      /\ (rcap c < m -> tlen (rtab c') = 0).
+Proof. exact rnd_free_sequential_gen. Qed.
+Print Assumptions free_sequential_random.
+
+(** Concurrently Free is not atomic (its five calls are linearizable one by
+    one, another goroutine can run between them): an execution of the
+    interleaving semantics - capacity 1, one block held, goroutine 0 runs the
+    calls of Free(1), goroutine 1 puts a block after the Drop - in which the
+    last Len reads 1, so Free answers [1 <=? 1 - 1] = false, which no
+    sequential Free(1) on a cache of capacity 1 answers. *)
+Theorem free_not_atomic :
+  let c := exec _ _ _ _ (fun _ => tt) (atomic_body (lf_wstep false false)) op_is_read
+             (init _ _ _ _ free_race_w0
+                (fun t => match t with O => [Cap; Len; Drop 1; Cap; Len] | 1%nat => [Put 1%nat] | _ => [] end))
+             free_race_sched in
+  map (res_of _ _) (lin _ _ _ _ c) = [ONum 1; ONum 1; OUnit; OPut None true; ONum 1; ONum 1]
+  /\ snd (lf_wstep false false free_race_w0 (Free 1)) = OBool true.
+Proof. exact free_not_atomic_gen. Qed.
+Print Assumptions free_not_atomic.
+
 (** StatsRecorder around any cache: answers and states are those of the
     wrapped cache, the counters are the numbers of Get, missed Get, Put,
     retained Put and evicting Put calls made through it. *)
@@ -220,44 +299,69 @@ Proof. exact stats_recorder_gen. Qed.
 Print Assumptions stats_recorder_counts.
 
 (** Linearizability, generic: operations of shape lock; body; unlock on one
-    RW mutex, the body split into a read of the shared state and a later
-    write-back, any number of threads, ANY schedule. The final shared state
-    and every result equal the sequential execution of the operations in the
-    order of their linearization points [lin]; that order is the order of the
-    ELin events of the global history, in which every operation's ELin lies
-    between its invocation and its response (so it respects real time). *)
+    RW mutex, any number of threads, ANY schedule, the body of an operation
+    being an ARBITRARY micro-step program over the shared state and a local
+    state ([bstep]; other threads move between its micro-steps), bodies under
+    the read lock not storing. There is a state [sg] that the sequential
+    execution of the finished operations - the same bodies run one after the
+    other in the order [lin] of their last micro-steps - reaches with exactly
+    the observed results; the shared state is [sg] whenever no writer is
+    inside its body; [lin] is the sequence of ELin events of the history, in
+    which every operation's ELin lies between its invocation and its
+    response (so the order respects real time). *)
 Theorem linearizable :
-  forall (S O R : Type) (step : S -> O -> S * R) (is_read : O -> bool),
-    (forall s o, is_read o = true -> fst (step s o) = s) ->
+  forall (St Op Rs Lc : Type) (l0 : Op -> Lc) (bstep : Op -> St -> Lc -> St * (Lc + Rs))
+         (is_read : Op -> bool),
+    (forall o s l, is_read o = true -> fst (bstep o s l) = s) ->
     forall s0 p sched,
-      let c := exec S O R step is_read (init S O R s0 p) sched in
-      seq_run S O R step s0 (map (op_of O R) (lin _ _ _ c)) = (sh _ _ _ c, map (res_of O R) (lin _ _ _ c))
-      /\ lin_of _ _ (hist _ _ _ c) = lin _ _ _ c
-      /\ bracketed _ _ (hist _ _ _ c).
+      let c := exec St Op Rs Lc l0 bstep is_read (init St Op Rs Lc s0 p) sched in
+      (exists sg, seq_rel St Op Rs Lc l0 bstep s0 (lin _ _ _ _ c) sg
+                  /\ (no_writer_mid _ _ _ _ is_read c -> sg = sh _ _ _ _ c))
+      /\ lin_of _ _ (hist _ _ _ _ c) = lin _ _ _ _ c
+      /\ bracketed _ _ (hist _ _ _ _ c).
 Proof. exact linearizable_gen. Qed.
 Print Assumptions linearizable.
 
-(** The three caches are instances (Len, Cap, Peek take the read lock and do
-    not change the state). *)
+(** LRU and FIFO: however the method bodies are cut into micro-steps, as
+    long as a body run alone computes the model's step (what the
+    correspondence check validates on every run) and the Len/Cap/Peek bodies
+    do not store (the source fact [read_lock_methods_read_only]; the model
+    agrees: [lf_wstep] leaves the state alone on these operations), every
+    concurrent execution has the answers of the sequential model in
+    linearization order. *)
 Theorem linearizable_lru_fifo :
-  forall fifo w0 p sched,
-    let c := exec _ _ _ (lf_wstep fifo false) op_is_read (init _ _ _ w0 p) sched in
-    seq_run _ _ _ (lf_wstep fifo false) w0 (map (op_of _ _) (lin _ _ _ c)) = (sh _ _ _ c, map (res_of _ _) (lin _ _ _ c))
-    /\ lin_of _ _ (hist _ _ _ c) = lin _ _ _ c
-    /\ bracketed _ _ (hist _ _ _ c).
+  forall fifo (Lc : Type) (l0 : op -> Lc) (bstep : op -> store * lf -> Lc -> (store * lf) * (Lc + out)),
+    (forall o s l, op_is_read o = true -> fst (bstep o s l) = s) ->
+    (forall o s s' r, runs _ _ _ _ l0 bstep o s s' r -> lf_wstep fifo false s o = (s', r)) ->
+    (forall w o, op_is_read o = true -> fst (lf_wstep fifo false w o) = w)
+    /\ forall w0 p sched,
+      let c := exec _ _ _ _ l0 bstep op_is_read (init _ _ _ _ w0 p) sched in
+      (exists sg, seq_run _ _ _ (lf_wstep fifo false) w0 (map (op_of _ _) (lin _ _ _ _ c)) = (sg, map (res_of _ _) (lin _ _ _ _ c))
+                  /\ (no_writer_mid _ _ _ _ op_is_read c -> sg = sh _ _ _ _ c))
+      /\ lin_of _ _ (hist _ _ _ _ c) = lin _ _ _ _ c
+      /\ bracketed _ _ (hist _ _ _ _ c).
 Proof.
-  exact (fun fifo => linearizable_gen _ _ _ (lf_wstep fifo false) op_is_read (fun s o => lf_read_pure fifo s o)).
+  exact (fun fifo Lc l0 bstep RP IMP =>
+    conj (lf_read_pure fifo)
+         (fun w0 p sched => linearizable_step _ _ _ _ l0 bstep op_is_read RP w0 (lf_wstep fifo false) p sched IMP)).
 Qed.
 Print Assumptions linearizable_lru_fifo.
 
 Theorem linearizable_random :
-  forall w0 p sched,
-    let c := exec _ _ _ rnd_wstep (fun o => op_is_read (rop_op o)) (init _ _ _ w0 p) sched in
-    seq_run _ _ _ rnd_wstep w0 (map (op_of _ _) (lin _ _ _ c)) = (sh _ _ _ c, map (res_of _ _) (lin _ _ _ c))
-    /\ lin_of _ _ (hist _ _ _ c) = lin _ _ _ c
-    /\ bracketed _ _ (hist _ _ _ c).
+  forall (Lc : Type) (l0 : rop -> Lc) (bstep : rop -> store * rnd -> Lc -> (store * rnd) * (Lc + out)),
+    (forall o s l, op_is_read (rop_op o) = true -> fst (bstep o s l) = s) ->
+    (forall o s s' r, runs _ _ _ _ l0 bstep o s s' r -> rnd_wstep s o = (s', r)) ->
+    (forall w o, op_is_read (rop_op o) = true -> fst (rnd_wstep w o) = w)
+    /\ forall w0 p sched,
+      let c := exec _ _ _ _ l0 bstep (fun o => op_is_read (rop_op o)) (init _ _ _ _ w0 p) sched in
+      (exists sg, seq_run _ _ _ rnd_wstep w0 (map (op_of _ _) (lin _ _ _ _ c)) = (sg, map (res_of _ _) (lin _ _ _ _ c))
+                  /\ (no_writer_mid _ _ _ _ (fun o => op_is_read (rop_op o)) c -> sg = sh _ _ _ _ c))
+      /\ lin_of _ _ (hist _ _ _ _ c) = lin _ _ _ _ c
+      /\ bracketed _ _ (hist _ _ _ _ c).
 Proof.
-  exact (linearizable_gen _ _ _ rnd_wstep (fun o => op_is_read (rop_op o)) rnd_read_pure).
+  exact (fun Lc l0 bstep RP IMP =>
+    conj rnd_read_pure
+         (fun w0 p sched => linearizable_step _ _ _ _ l0 bstep (fun o => op_is_read (rop_op o)) RP w0 rnd_wstep p sched IMP)).
 Qed.
 Print Assumptions linearizable_random.
 
@@ -269,9 +373,9 @@ Example lru_history :
 Proof. vm_compute. reflexivity. Qed.
 
 Example two_threads :
-  let c := exec _ _ _ (lf_wstep false false) op_is_read
-             (init _ _ _ (sset store0 0%nat (mkblk 0 true), lf_empty 1)
+  let c := exec _ _ _ _ (fun _ => tt) (atomic_body (lf_wstep false false)) op_is_read
+             (init _ _ _ _ (sset store0 0%nat (mkblk 0 true), lf_empty 1)
                    (fun t => match t with O => [Put 0%nat] | 1%nat => [Len; Get 0] | _ => [] end))
-             [1; 0; 1; 0; 1; 0; 1; 1; 0; 1; 1; 1; 0; 0; 0; 0; 1; 1; 1; 1; 1]%nat in
-  map (res_of _ _) (lin _ _ _ c) = [ONum 0; OPut None true; OGet (Some 0%nat)].
+             [1; 0; 1; 0; 1; 1; 0; 1; 1; 1; 0; 0; 0; 1; 1; 1; 1]%nat in
+  map (res_of _ _) (lin _ _ _ _ c) = [ONum 0; OPut None true; OGet (Some 0%nat)].
 Proof. vm_compute. reflexivity. Qed.
